@@ -6,16 +6,16 @@ import "strings"
 // in answer to a seeded change that the first rule set missed, see DESIGN.md §8.6). They are part of
 // what the check decides and are appended to the rule text of the manifest and the evidence.
 var extraClauses = map[string][]string{
-	"C01": {"lock-released: every function of the codec package that takes a mutex releases it on all exits (MAY-held-at-exit analysis with deferred unlocks)"},
-	"C02": {"inflate-status: the success return of decompress carries the zlib reader's terminal status (Close() result or the probe's error), so a corrupt/truncated trailer is rejected"},
+	"C01": {"enable-agreement: Encoder.SetCompression and Decoder.SetCompressionThreshold both enable compression exactly for threshold >= 0", "lock-released: every function of the codec package that takes a mutex releases it on all exits (MAY-held-at-exit analysis with deferred unlocks)"},
+	"C02": {"full-reader (shared with C01/C15): every store to Decoder.rd wraps the reader in fullReader", "inflate-status: the success return of decompress carries the zlib reader's terminal status (Close() result or the probe's error), so a corrupt/truncated trailer is rejected"},
 	"C03": {"read-error-consumed: the error result of every stream read in proto/util reaches a test, a return or a store (no discarded or shadowed error)"},
 	"C04": {"forge-short-layout (P6b bit-slice provenance): Read/WriteExtendedForgeShort place every value bit where the other side takes it from, the flag bit is set exactly when the third byte follows"},
-	"C05": {"recover-converts-errors: every re-panic in util.Recover lies behind the failed r.(error) assertion (runtime errors are converted, not re-thrown)"},
+	"C05": {"recover-converts-errors: every re-panic in util.Recover lies behind the failed r.(error) assertion (runtime errors are converted, not re-thrown)", "bailout-alive: no loop on a decode path exits on a progress flag that is carried across iterations and only ever set to true (the one structural hang pattern decided; termination in general is not)"},
 	"C06": {"reference-ids: every (state, direction, type, protocol) cell of /verif/reference/packet_ids.json keeps its id (ids of released protocol versions are immutable)"},
 	"C08": {"join-confirmed: AuthenticateJoin reports an online-mode result only on the HTTP status == 200 edge"},
 	"C11": {"key-agreement: every access of Proxy.playerNames uses the same (lower-cased) key spelling, followed through parameters to all call sites", "lock-released: every Proxy method that takes muP releases it on all exits"},
 	"C12": {"lock-released: every Proxy / players method that takes a registry mutex releases it on all exits"},
-	"C13": {"lock-released for loginInboundConn"},
+	"C13": {"fired-with-drain: isLoginEventFired is set to true once, in the critical section that drains the queued login plugin messages", "lock-released for loginInboundConn"},
 	"C14": {"queue-reconciled: SetState and SetOutboundState call ensurePlayPacketQueue(new.State) unconditionally under c.mu", "lock-released for package netmc"},
 	"C15": {"full-reader (shared with C01): the decoder's reader is always the fullReader wrapper"},
 	"C16": {"lock-released for connectedPlayer / connectionRequest", "server-equality: RegisteredServer values are never compared with == (always RegisteredServerEqual)"},
